@@ -1899,10 +1899,100 @@ def probe_datasets(ctx):
     ctx.case({'probe': 'datasets'})
 
 
+# ============================================================== Extension: ModelCollection.cast
+def run_cast(ctx):
+    """ModelCollection.cast on the real class after a history on x, y, z, against M_Coll.mc_cast"""
+    from skyllh.core.model import ModelCollection
+    rng = ctx.rng
+    cases = [([('add', 0), ('add', 1)], ('x',)), ([], ('none',)), ([('add', 0)], ('obj', 2)), ([('add', 0)], ('obj', 7)),
+             ([('add', 1)], ('seq', (2, 0))), ([], ('seq', ())), ([('add', 1)], ('seq', (2, 7))), ([], ('other', 5)),
+             ([('add', 0), ('popn', 0)], ('x',)), ([('add', 3)], ('other', 'name')), ([], ('seq', (5, 6))), ([('add', 0)], ('tuple', (1, 2)))]
+    for _ in range(ctx.budget(60, 600)):
+        h = random_history(rng, rng.randrange(0, 6))
+        r = rng.random()
+        if r < 0.2:
+            k = ('x',)
+        elif r < 0.3:
+            k = ('none',)
+        elif r < 0.5:
+            k = ('obj', rng.randrange(9))
+        elif r < 0.85:
+            k = (rng.choice(['seq', 'tuple']), tuple(rng.randrange(9) for _ in range(rng.randrange(0, 4))))
+        else:
+            k = ('other', rng.choice([5, 2.5, 'abc']))
+        cases.append((h, k))
+    terms, impl = [], []
+    for h, k in cases:
+        impl.append(cast_impl(ctx, h, k))
+        ctx.case({'cast': k, 'hist': h})
+        ctx.count('cast:' + k[0])
+        gk = {'x': 'KX', 'none': 'KNone', 'other': 'KOther'}.get(k[0])
+        if k[0] == 'obj':
+            gk = f'(KObj {gobj(k[1])})'
+        elif k[0] in ('seq', 'tuple'):
+            gk = '(KSeq [' + '; '.join(gobj(j) for j in k[1]) + '])'
+        terms.append(f'cast_trace {gops(h)} {gk}')
+    if not ctx.model_ok:
+        return
+    try:
+        vals = common.coq_eval('c20x', IMPORTS, terms)
+    except RuntimeError as ex:
+        ctx.broken.append({'kind': 'model-eval', 'error': str(ex)[:1500]})
+        return
+    for (h, k), a, b in zip(cases, impl, vals):
+        ctx.corr_cases += 1
+        if list(b) != a:
+            ctx.disagree('ModelCollection.cast', {'kind': 'cast', 'ops': h, 'arg': k}, a, list(b))
+
+
+def cast_impl(ctx, h, k):
+    """run one case on the implementation; the independent predicate is evaluated here"""
+    from skyllh.core.model import ModelCollection
+    w = World('model')
+    run_prefix(w, h)
+    x = w.v[0]
+    before = w._contents(x)
+    xobjs = list(x.objects)
+    case = {'kind': 'cast', 'ops': h, 'arg': k}
+    if k[0] == 'x':
+        arg, want = x, 'same'
+    elif k[0] == 'none':
+        arg, want = None, []
+    elif k[0] == 'obj':
+        arg = w.objs[k[1]]
+        want = [arg] if OBJ_TABLE[k[1]][1] != 'CForeign' else TypeError
+    elif k[0] in ('seq', 'tuple'):
+        lst = [w.objs[j] for j in k[1]]
+        arg = lst if k[0] == 'seq' else tuple(lst)
+        want = list(lst) if all(OBJ_TABLE[j][1] != 'CForeign' for j in k[1]) else TypeError
+    else:
+        arg, want = k[1], TypeError
+    try:
+        c = ModelCollection.cast(arg)
+        if want is TypeError:
+            ctx.violation('ModelCollection.cast', 'accepts-a-non-model', f'cast({k}) returned a collection', case=case)
+        elif want == 'same':
+            if c is not x:
+                ctx.violation('ModelCollection.cast', 'collection-not-returned-as-is', 'cast(collection) is not the collection', case=case)
+        else:
+            if c is x or c._objects is x._objects or (isinstance(arg, list) and c._objects is arg) \
+                    or len(c.objects) != len(want) or any(p is not q for p, q in zip(c.objects, want)) \
+                    or c.name_list != [o.name for o in want if True][:len(c.name_list)] and len({o.name for o in want}) == len(want):
+                ctx.violation('ModelCollection.cast', 'wrong-objects-or-not-a-new-collection', f'cast({k})', case=case)
+        out = [1 if c is x else 2] + w.obs_coll(c) + [-8] + w.obs_coll(x)
+    except Exception as ex:
+        if want is not TypeError or not isinstance(ex, TypeError):
+            ctx.violation('ModelCollection.cast', f'rejects-a-legal-argument-{type(ex).__name__}', f'cast({k})', case=case)
+        out = [-errcode(ex)]
+    if w._contents(x) != before or any(p is not q for p, q in zip(x.objects, xobjs)):
+        ctx.violation('ModelCollection.cast', 'modifies-an-existing-collection', f'cast({k})', case=case)
+    return out
+
+
 # ============================================================== driver
 def run(ctx):
     import time
-    for name, part in (('probes', run_probes), ('stages', run_stages), ('hash', run_hash), ('datasets', run_datasets),
+    for name, part in (('probes', run_probes), ('stages', run_stages), ('hash', run_hash), ('datasets', run_datasets), ('cast', run_cast),
                        ('collections', run_collections), ('config', run_config)):
         t = time.time()
         part(ctx)
@@ -1955,5 +2045,21 @@ def replay(ctx, rp):
         return run_datasets(ctx)
     if kind == 'probe':
         return run_probes(ctx)
+    if kind == 'cast':
+        ops = [tuple(tuple(x) if isinstance(x, list) else x for x in o) for o in c.get('ops', [])]
+        k = tuple(tuple(x) if isinstance(x, list) else x for x in c['arg'])
+        a = cast_impl(ctx, ops, k)
+        ctx.case(c)
+        if ctx.model_ok:
+            gk = {'x': 'KX', 'none': 'KNone', 'other': 'KOther'}.get(k[0])
+            if k[0] == 'obj':
+                gk = f'(KObj {gobj(k[1])})'
+            elif k[0] in ('seq', 'tuple'):
+                gk = '(KSeq [' + '; '.join(gobj(j) for j in k[1]) + '])'
+            b = common.coq_eval('c20xr', IMPORTS, [f'cast_trace {gops(ops)} {gk}'])[0]
+            ctx.corr_cases += 1
+            if list(b) != a:
+                ctx.disagree('ModelCollection.cast', c, a, list(b))
+        return
     ctx.notes.append('replay: no single input in the file (broken obligation); re-running the full check')
     run(ctx)
